@@ -1531,6 +1531,18 @@ func vH_C20(small []byte, big []byte, which int) {
 	vAssertCost(c2-c1 <= vC20A*(len(big)-len(small))+vC20B, "C20.marginal-cost-linear")
 }
 
+// One call from an arbitrary reader state, failing calls included: what it allocates, plus the potential of the
+// hints it leaves, minus the potential of the hints it found, is bounded by A*len(doc)+B. A call that pays for a
+// hint an earlier document left must use it up; a hint that survives a call that spent it is paid again by every
+// later call ("a reader that has once processed a large document does not make later small documents expensive").
+func vH_C20_call(doc []byte, which int) {
+	h := vNewHints()
+	before := 48*(h.a+h.b+h.d+h.e) + 16*(h.c+h.f)
+	c := vC20Cost(which, h, doc)
+	vReach("C20.call")
+	vAssertCost(c-before <= vC20A*len(doc)+vC20B, "C20.call-cost-amortised")
+}
+
 // ---- C13: readers are type-exclusive -----------------------------------------
 func vH_C13_exclusive(data []byte) {
 	tt, _, terr := NextTokenType(data)
